@@ -235,22 +235,20 @@ func (e *Env) Monitor(st *Step) {
 	if e.Mon.PoolOut == nil {
 		e.Mon.PoolOut = map[string]*big.Int{}
 	}
-	for _, r := range pre.Bank {
-		if r.Acct != AccPool || r.Denom < 0 || r.Denom >= len(Denoms) {
-			continue
-		}
-		after := new(big.Int)
+	// gross outflow of the pool: in a user operation or a slash callback every coin a user account GAINS comes from the pool
+	// (a net view of the pool's balance would miss a step that first fills the pool and then pays most of it out)
+	if kind == "claim" || kind == "delegate" || kind == "undelegate" || kind == "redelegate" || kind == "slash" {
 		for _, q := range post.Bank {
-			if q.Acct == AccPool && q.Denom == r.Denom {
-				after = q.Amt
+			if q.Acct < AccUserBase || q.Denom < 0 || q.Denom >= len(Denoms) {
+				continue
 			}
-		}
-		if d := new(big.Int).Sub(r.Amt, after); d.Sign() > 0 {
-			dn := Denoms[r.Denom]
-			if e.Mon.PoolOut[dn] == nil {
-				e.Mon.PoolOut[dn] = new(big.Int)
+			if d := new(big.Int).Sub(q.Amt, pre.Bal(q.Acct, q.Denom)); d.Sign() > 0 {
+				dn := Denoms[q.Denom]
+				if e.Mon.PoolOut[dn] == nil {
+					e.Mon.PoolOut[dn] = new(big.Int)
+				}
+				e.Mon.PoolOut[dn].Add(e.Mon.PoolOut[dn], d)
 			}
-			e.Mon.PoolOut[dn].Add(e.Mon.PoolOut[dn], d)
 		}
 	}
 
@@ -555,6 +553,14 @@ func (e *Env) Monitor(st *Step) {
 				st.fail("C08", "no_rebalance", "slash callback did not queue a rebalance")
 			}
 		}
+	}
+
+	// ---- C05: a user operation that panics with the fixed-point overflow (LegacyDec beyond 315 bits, Int beyond 256) ----------
+	// the model's integers are unbounded, so the trace driver does not judge such a step (`skip-overflow`); it is judged here:
+	// in scope it is a liveness violation, out of scope (share price beyond 1e±6, the only road to such magnitudes found so
+	// far) it is attributed to the scope class like every other failure
+	if strings.Contains(st.Res, "panic overflow") && (kind == "delegate" || kind == "undelegate" || kind == "redelegate" || kind == "claim") {
+		st.fail("C05", "overflow_panic", "%s panics with Int overflow", st.Src)
 	}
 
 	// ---- C09 take rate ----------------------------------------------------------------------------------------
